@@ -6,6 +6,7 @@ import (
 	"maps"
 	"net/http"
 	"os"
+	"path/filepath"
 	"strconv"
 	"strings"
 
@@ -560,20 +561,42 @@ func (r *Runner) Format(rslv resolver.Resolver) error {
 	}
 
 	formatted := formatter.New(r.config.Format).Format(vcl)
-	var w io.Writer
-	if r.config.Format.Overwrite {
-		writeln(cyan, "Formatted %s.", main.Name)
-		fp, err := os.OpenFile(main.Name, os.O_TRUNC|os.O_WRONLY, 0o644)
-		if err != nil {
-			return errors.WithStack(err)
+	// The formatter handles declarations only: statement-only VCL (snippets) yields no output
+	if formatted == nil {
+		return fmt.Errorf("%s could not be formatted: only root declarations are supported", main.Name)
+	}
+	if !r.config.Format.Overwrite {
+		if _, err := io.Copy(os.Stdout, formatted); err != nil {
+			return err
 		}
-		defer fp.Close()
-		w = fp
-	} else {
-		w = os.Stdout
+		return nil
 	}
-	if _, err := io.Copy(w, formatted); err != nil {
-		return err
+
+	// Write the result to a temporary file next to the target and rename it over the target
+	// afterwards, so that the file holds either its original bytes or the complete formatted text
+	// whatever fails on the way (short write, full disk, interruption).
+	info, err := os.Stat(main.Name)
+	if err != nil {
+		return errors.WithStack(err)
 	}
+	tmp, err := os.CreateTemp(filepath.Dir(main.Name), ".falco-fmt-*")
+	if err != nil {
+		return errors.WithStack(err)
+	}
+	defer os.Remove(tmp.Name()) // no-op after a successful rename
+	if _, err := io.Copy(tmp, formatted); err != nil {
+		tmp.Close()
+		return errors.WithStack(err)
+	}
+	if err := tmp.Close(); err != nil {
+		return errors.WithStack(err)
+	}
+	if err := os.Chmod(tmp.Name(), info.Mode().Perm()); err != nil {
+		return errors.WithStack(err)
+	}
+	if err := os.Rename(tmp.Name(), main.Name); err != nil {
+		return errors.WithStack(err)
+	}
+	writeln(cyan, "Formatted %s.", main.Name)
 	return nil
 }
